@@ -131,6 +131,7 @@ type LockProgram struct {
 	entryMust map[*LUnit]map[string]string
 	fresh     map[*FuncInfo]map[*types.Var]bool
 	bparams   map[*FuncInfo]map[int]*types.Var
+	dyns      map[*LUnit][]dynOp
 	initOnly  map[*LUnit]bool
 	// Problems lists constructs the engine cannot model (callers must fail closed).
 	Problems []string
@@ -1287,54 +1288,145 @@ type DynUnder struct {
 	Unit  *LUnit
 	Pos   token.Pos
 	What  string
+	Chain []string // units from the lock holder down to the one making the call
 }
 
 // DynamicCallsUnderLock lists calls the static call graph cannot resolve that may run with a lock held.
 func (lp *LockProgram) DynamicCallsUnderLock() []DynUnder {
 	var out []DynUnder
+	sums := lp.funcValueCalls()
 	for _, u := range lp.Units {
 		if u.Kind == ULitDead {
 			continue
 		}
-		info := u.G.Info
+		emit := func(node int, what string, pos token.Pos, chain []string) {
+			for inst := range u.LI.MayIn[node] {
+				out = append(out, DynUnder{Class: u.LI.ClassOf[inst], Unit: u, Pos: pos, What: what, Chain: chain})
+			}
+		}
 		for _, c := range u.Calls {
 			if c.Mode == CallGo || len(u.LI.MayIn[c.Node]) == 0 {
 				continue
 			}
-			what := ""
-			if c.Dyn == "local-closure" || (c.Dyn == "iface" && len(c.Targets) > 0) {
-				continue
+			if what := lp.dynWhat(u, c); what != "" {
+				emit(c.Node, what, c.Call.Pos(), []string{u.Name})
 			}
-			switch {
-			case c.Fn == nil:
-				if tv, ok := info.Types[c.Call.Fun]; ok && tv.IsType() {
-					continue // conversion
-				}
-				if id, ok := ast.Unparen(c.Call.Fun).(*ast.Ident); ok {
-					if _, isB := info.Uses[id].(*types.Builtin); isB {
-						continue
+			// function values invoked by a callee (or a literal run in place) while this unit holds the lock
+			if c.Mode == CallSync {
+				for _, t := range c.Targets {
+					for _, d := range sums[t] {
+						emit(c.Node, d.What, c.Call.Pos(), append([]string{u.Name}, d.Chain...))
 					}
 				}
-				if _, isLit := ast.Unparen(c.Call.Fun).(*ast.FuncLit); isLit {
-					continue
-				}
-				what = "func-value:" + lp.describe(u, c.Call.Fun)
-			default:
-				sig, _ := c.Fn.Type().(*types.Signature)
-				if sig == nil || sig.Recv() == nil {
-					continue
-				}
-				if _, isI := sig.Recv().Type().Underlying().(*types.Interface); !isI {
-					continue
-				}
-				what = "interface:" + recvTypeString(sig.Recv().Type()) + "." + c.Fn.Name()
 			}
-			for inst := range u.LI.MayIn[c.Node] {
-				out = append(out, DynUnder{Class: u.LI.ClassOf[inst], Unit: u, Pos: c.Call.Pos(), What: what})
+		}
+		for _, ch := range u.Children {
+			if ch.Kind == ULitCall || (ch.Kind == ULitOnce && !ch.ViaGo) {
+				for _, d := range sums[ch] {
+					emit(ch.ParentNode, d.What, ch.Lit.Pos(), append([]string{u.Name}, d.Chain...))
+				}
 			}
 		}
 	}
 	return out
+}
+
+// dynWhat describes call c of unit u when the static call graph cannot follow it ("" otherwise):
+// "func-value:<resolved description>" or "interface:<pkg.Type.Method>".
+func (lp *LockProgram) dynWhat(u *LUnit, c *LCall) string {
+	info := u.G.Info
+	if c.Dyn == "local-closure" || (c.Dyn == "iface" && len(c.Targets) > 0) {
+		return ""
+	}
+	if c.Fn == nil {
+		if tv, ok := info.Types[c.Call.Fun]; ok && tv.IsType() {
+			return "" // conversion
+		}
+		if id, ok := ast.Unparen(c.Call.Fun).(*ast.Ident); ok {
+			if _, isB := info.Uses[id].(*types.Builtin); isB {
+				return ""
+			}
+		}
+		if _, isLit := ast.Unparen(c.Call.Fun).(*ast.FuncLit); isLit {
+			return ""
+		}
+		return "func-value:" + lp.describe(u, c.Call.Fun)
+	}
+	sig, _ := c.Fn.Type().(*types.Signature)
+	if sig == nil || sig.Recv() == nil {
+		return ""
+	}
+	if _, isI := sig.Recv().Type().Underlying().(*types.Interface); !isI {
+		return ""
+	}
+	return "interface:" + recvTypeString(sig.Recv().Type()) + "." + c.Fn.Name()
+}
+
+type dynOp struct {
+	What  string
+	Chain []string
+}
+
+// funcValueCalls summarises, per unit, the function values it may invoke synchronously (own calls, literals run in
+// place, static and module-interface callees, transitively). Interface calls into dependencies are not propagated.
+func (lp *LockProgram) funcValueCalls() map[*LUnit][]dynOp {
+	if lp.dyns != nil {
+		return lp.dyns
+	}
+	lp.dyns = map[*LUnit][]dynOp{}
+	have := map[*LUnit]map[string]bool{}
+	add := func(u *LUnit, d dynOp) bool {
+		if have[u] == nil {
+			have[u] = map[string]bool{}
+		}
+		if have[u][d.What] {
+			return false
+		}
+		have[u][d.What] = true
+		lp.dyns[u] = append(lp.dyns[u], d)
+		return true
+	}
+	for _, u := range lp.Units {
+		if u.Kind == ULitDead {
+			continue
+		}
+		for _, c := range u.Calls {
+			if c.Mode == CallGo {
+				continue
+			}
+			if what := lp.dynWhat(u, c); strings.HasPrefix(what, "func-value:") {
+				add(u, dynOp{What: what, Chain: []string{u.Name}})
+			}
+		}
+	}
+	for changed := true; changed; {
+		changed = false
+		for _, u := range lp.Units {
+			prop := func(from *LUnit) {
+				for _, d := range lp.dyns[from] {
+					if len(d.Chain) > 12 {
+						continue
+					}
+					if add(u, dynOp{What: d.What, Chain: append([]string{u.Name}, d.Chain...)}) {
+						changed = true
+					}
+				}
+			}
+			for _, ch := range u.Children {
+				if ch.Kind == ULitCall || ch.Kind == ULitDefer || (ch.Kind == ULitOnce && !ch.ViaGo) {
+					prop(ch)
+				}
+			}
+			for _, c := range u.Calls {
+				if c.Mode != CallGo {
+					for _, t := range c.Targets {
+						prop(t)
+					}
+				}
+			}
+		}
+	}
+	return lp.dyns
 }
 
 func recvTypeString(t types.Type) string {
@@ -1904,4 +1996,52 @@ func (lp *LockProgram) privateClosure(u *LUnit) bool {
 		return true
 	})
 	return ok
+}
+
+// ---- call-graph domination (reviewed exceptions survive moving code into a helper) ----
+
+// ReachAvoiding returns the units that can run without one of the anchor functions being on the call stack or
+// lexically enclosing them: everything reachable (calls of any mode, nested literals) from functions callable
+// from outside the module, function values, dynamically callable methods and functions nobody calls, never
+// entering a unit for which anchor is true. A unit outside the result only ever runs inside (or is defined
+// inside) an anchor.
+func (lp *LockProgram) ReachAvoiding(anchor func(*LUnit) bool) map[*LUnit]bool {
+	called := map[*LUnit]bool{}
+	for _, u := range lp.Units {
+		for _, c := range u.Calls {
+			for _, t := range c.Targets {
+				called[t] = true
+			}
+		}
+	}
+	reach := map[*LUnit]bool{}
+	var work []*LUnit
+	push := func(u *LUnit) {
+		if u == nil || reach[u] || u.Kind == ULitDead || anchor(u) {
+			return
+		}
+		reach[u] = true
+		work = append(work, u)
+	}
+	for _, u := range lp.Units {
+		if u.Kind != UDecl {
+			continue
+		}
+		if lp.IsExternalRoot(u) || lp.AddrTaken[u.Decl.Obj] || lp.DynMethod[u.Decl.Obj] || !called[u] {
+			push(u)
+		}
+	}
+	for len(work) > 0 {
+		u := work[len(work)-1]
+		work = work[:len(work)-1]
+		for _, ch := range u.Children {
+			push(ch)
+		}
+		for _, c := range u.Calls {
+			for _, t := range c.Targets {
+				push(t)
+			}
+		}
+	}
+	return reach
 }
